@@ -509,44 +509,12 @@ func checkC08(p *Prog, r *Report) {
 		}
 		r.Check(readsNft["GetClasses"] && readsNft["GetNFTsOfClass"] && readsNft["GetOwner"], kp("WMC", "pnft.ExportGenesis#reads-class+token+owner"),
 			"export reads every class, every token of every class and each token's current owner", p.FnPos(pexp), fmt.Sprint(keys(readsNft)), fmt.Sprintf("x/nft reads on the export path: %v", keys(readsNft)))
-		// D2: every field of Denom and Pnft is read on the import call tree
-		for _, tn := range []string{"Denom", "Pnft"} {
-			T := p.Named(Rel("x/pnft/types"), tn)
-			if T == nil {
-				r.Fail(kp("FIELDS", "pnft."+tn+"#anchor"), "anchor", "x/pnft/types", tn+" not found")
-				continue
-			}
-			reads := fieldReadsOn(p, pimp, T)
-			st := T.Underlying().(*types.Struct)
-			n := 0
-			for i := 0; i < st.NumFields(); i++ {
-				f := st.Field(i).Name()
-				if strings.HasPrefix(f, "XXX_") {
-					continue
-				}
-				n++
-				r.Check(reads[f] || reads["*"], kp("FIELDS", "x/pnft.InitGenesis#reads:"+tn+"."+f),
-					"field agreement: every field the exporter writes into the genesis record is consumed by the importer", p.FnPos(pimp),
-					"read on the import call tree", fmt.Sprintf("%s.%s is exported but never read on the import call tree: it is silently dropped (e.g. a token returns to its creator instead of its current owner)", tn, f))
-			}
-			r.Count("fields-of-"+tn, n)
-		}
+		checkPnftImportReadsAllFields(p, r, kp, pimp)
 		// a partial update of a stored denom never empties a field the genesis validation requires
 		checkPartialUpdates(p, r, kp, "x/*/keeper", func(fn *ssa.Function) bool {
 			return InPkgs(fn, "x/aol/keeper", "x/did/keeper", "x/pnft/keeper", "x/burn/keeper")
 		})
-		// exporter loop: tokens of every denom are exported, none skipped
-		checkUnconditionalLoopEffect(p, r, kp("LOOP", "x/pnft.ExportGenesis#tokens-of-every-denom-exported"), pexp, func(in ssa.Instruction) bool {
-			c, ok := in.(*ssa.Call)
-			if !ok || !inCycle(c.Block()) {
-				return false
-			}
-			if b, isB := c.Call.Value.(*ssa.Builtin); isB {
-				return b.Name() == "append"
-			}
-			sc := c.Call.StaticCallee()
-			return sc != nil && InPkgs(resolveBound(sc), "x/pnft/keeper")
-		}, "export collects the tokens of every denom, with no conditional skip")
+		checkPnftExportLoop(p, r, kp, pexp)
 		// every listing helper on the export path returns everything it iterates over
 		for _, f := range reach.Order {
 			if !InPkgs(f, "x/pnft/keeper") || p.IsGenerated(f) || f.Blocks == nil {
@@ -600,6 +568,13 @@ func checkC08(p *Prog, r *Report) {
 		}
 	}
 
+	// D12b the typed keys' string and byte forms bind every position to its own field (FromStrings inverts Strings): the importer
+	// re-keys every entry through them
+	if ck := p.Iface(Rel(compkeyPkg), "CompositeKey"); ck != nil {
+		for _, kt := range p.ImplementersOf(ck) {
+			checkTypedKey(p, r, kp, kt)
+		}
+	}
 	// D12 the string form of the AOL genesis keys splits back into its components: the separator occurs in no component
 	if sepC, ok := p.ConstVal(Rel(aolTypesPkg), "GenesisKeySeparator"); ok {
 		var sep string
@@ -711,4 +686,46 @@ func keysOfSt[T any](m map[string]*T) []string {
 	}
 	sort.Strings(out)
 	return out
+}
+
+// checkPnftImportReadsAllFields (C08-D2, shared with C12): every field of Denom and of Pnft is read on the import call tree.
+func checkPnftImportReadsAllFields(p *Prog, r *Report, kp func(string, string) string, pimp *ssa.Function) {
+	// D2: every field of Denom and Pnft is read on the import call tree
+	for _, tn := range []string{"Denom", "Pnft"} {
+		T := p.Named(Rel("x/pnft/types"), tn)
+		if T == nil {
+			r.Fail(kp("FIELDS", "pnft."+tn+"#anchor"), "anchor", "x/pnft/types", tn+" not found")
+			continue
+		}
+		reads := fieldReadsOn(p, pimp, T)
+		st := T.Underlying().(*types.Struct)
+		n := 0
+		for i := 0; i < st.NumFields(); i++ {
+			f := st.Field(i).Name()
+			if strings.HasPrefix(f, "XXX_") {
+				continue
+			}
+			n++
+			r.Check(reads[f] || reads["*"], kp("FIELDS", "x/pnft.InitGenesis#reads:"+tn+"."+f),
+				"field agreement: every field the exporter writes into the genesis record is consumed by the importer", p.FnPos(pimp),
+				"read on the import call tree", fmt.Sprintf("%s.%s is exported but never read on the import call tree: it is silently dropped (e.g. a token returns to its creator instead of its current owner)", tn, f))
+		}
+		r.Count("fields-of-"+tn, n)
+	}
+}
+
+// checkPnftExportLoop (C08, shared with C06): the exporter collects the tokens of every denom.
+func checkPnftExportLoop(p *Prog, r *Report, kp func(string, string) string, pexp *ssa.Function) {
+	// exporter loop: tokens of every denom are exported, none skipped
+	checkUnconditionalLoopEffect(p, r, kp("LOOP", "x/pnft.ExportGenesis#tokens-of-every-denom-exported"), pexp, func(in ssa.Instruction) bool {
+		c, ok := in.(*ssa.Call)
+		if !ok || !inCycle(c.Block()) {
+			return false
+		}
+		if b, isB := c.Call.Value.(*ssa.Builtin); isB {
+			return b.Name() == "append"
+		}
+		sc := c.Call.StaticCallee()
+		return sc != nil && InPkgs(resolveBound(sc), "x/pnft/keeper")
+	}, "export collects the tokens of every denom, with no conditional skip")
 }
